@@ -154,6 +154,7 @@ func (x *Exec) call(st *State, c *ast.CallExpr) []Value {
 	// receiver
 	var recv *Value
 	var recvT types.Type
+	var copyBack func()
 	if se, ok := ast.Unparen(c.Fun).(*ast.SelectorExpr); ok {
 		if sel, ok := x.info.Selections[se]; ok {
 			rv := x.expr(st, se.X)
@@ -165,7 +166,20 @@ func (x *Exec) call(st *State, c *ast.CallExpr) []Value {
 			_, havePtr := rv.Ty.Underlying().(*types.Pointer)
 			if _, isI := rv.Ty.Underlying().(*types.Interface); !isI {
 				if wantPtr && !havePtr {
-					x.unsup(c.Pos(), "implicit address-of for method call %s", exprText(c.Fun))
+					// implicit &x.f / &local: copy-in / copy-out through a temporary
+					// object (sound when the callee does not retain the pointer; the
+					// contract's frame is relative to the temporary)
+					if !isStruct(rv.Ty) {
+						x.unsup(c.Pos(), "implicit address-of of non-struct for method call %s", exprText(c.Fun))
+					}
+					tmp := x.vc.allocRef(st)
+					structT := rv.Ty
+					x.vc.storeStruct(st, tmp, structT, rv.T)
+					copyBack = func() {
+						nv := x.vc.loadStruct(st, tmp, structT)
+						x.assignTo(st, se.X, Value{T: nv, Ty: structT})
+					}
+					rv = Value{T: tmp, Ty: types.NewPointer(rv.Ty)}
 				}
 				if !wantPtr && havePtr {
 					et, _ := deref(rv.Ty)
@@ -201,7 +215,11 @@ func (x *Exec) call(st *State, c *ast.CallExpr) []Value {
 	if cal == nil || cal.ct == nil {
 		x.unsup(c.Pos(), "call to %s which has no contract", full)
 	}
-	return x.applyContract(st, cal, recv, args, c.Pos())
+	res := x.applyContract(st, cal, recv, args, c.Pos())
+	if copyBack != nil {
+		copyBack()
+	}
+	return res
 }
 
 func (x *Exec) conversion(st *State, c *ast.CallExpr, to types.Type) Value {
@@ -786,8 +804,14 @@ func (x *Exec) modset(env *SpecEnv, ct *FuncContract) map[string][]Term {
 				case *types.Map:
 					k := vc.mapKind(u)
 					out[k.Name] = append(out[k.Name], allRefs)
+				case *types.Struct:
+					si := vc.structInfo(ty)
+					for _, fn := range si.FNames {
+						k := vc.fieldKind(ty, fn)
+						out[k.Name] = append(out[k.Name], allRefs)
+					}
 				default:
-					env.fail("'all' needs a slice or map type")
+					env.fail("'all' needs a slice, map or struct type")
 				}
 			case *SSel:
 				base := env.eval(l.X)
